@@ -457,7 +457,7 @@ let ab_model toks =
            incr i;
            let n = Stdlib.String.length t in
            (match t.[0] with
-            | 'A' ->
+            | 'A' | 'O' ->
               let hit = t.[n - 1] = '+' in
               let body = Stdlib.String.sub t 1 (n - 2) in
               let k = int_of_string (Stdlib.List.hd (split_on '.' body)) in
